@@ -61,11 +61,8 @@ def census(src, astcfg_pruned, astcfg_raw):
                 continue
             if seen[id(ins)] != 1:
                 probs.append(f"reachable statement `{ast.unparse(ins)[:40]}` lost by pruning")
-    for n in astcfg_pruned:
-        if n not in reach:
-            probs.append(f"unreachable block {n} kept")
-        if not astcfg_pruned[n].instructions:
-            probs.append(f"empty block {n} kept")
+    # (The property says what may be pruned, not that everything prunable must be: a kept empty or
+    # unreachable block is no violation -- prune_empty deliberately keeps an empty entry block or arm.)
     return probs
 
 
@@ -136,7 +133,11 @@ def _work(chunk):
             continue
         # correspondence: the Lean model of the front end (Scfg/Model/Ast2Cfg.lean), block for block
         mrep = drv.run(["FE " + " ".join(toks)])[0]
+        hyp = None
+        if mrep.startswith("ok hyp="):
+            hyp, mrep = mrep[7], "ok " + mrep[9:]
         rec["fe_model_same"] = mrep == "ok " + " ".join(ctoks)
+        rec["prune_hyp"] = hyp      # "1": hypotheses of front_end_prune_ok hold on the pre-pruning block list
         rep = drv.run(["PYA " + " ".join(toks), "PYCFGB " + " ".join(ctoks), "PYSIM"])
         if rep[0] != "ok" or rep[1] != "ok":
             rec["fails"].append("driver parse error")
@@ -255,6 +256,13 @@ def run(ctx):
                                            "source": r["src"], "mismatching_programs": len(femm)})
         broken.append({"signature": {"kind": "front-end-model"}, "replay": path, "nfi": True,
                        "what": f"front-end model differs from the implementation on {len(femm)} programs"})
+    hypbad = [r for r in recs if r.get("prune_hyp") == "0"]
+    if hypbad:
+        r = min(hypbad, key=lambda r: len(r["src"]))
+        path = common.write_replay("C08", {"property": "C08", "kind": "obligation-broken", "theorem": "Scfg.C08.front_end_prune_ok",
+                                           "obligation": "pruneHypOK on the block list handed to prune_empty", "source": r["src"], "programs": len(hypbad)})
+        broken.append({"signature": {"kind": "prune-hypotheses"}, "replay": path, "nfi": True,
+                       "what": f"hypotheses of front_end_prune_ok fail on the pre-pruning CFG of {len(hypbad)} programs"})
     if refmm:
         path = common.write_replay("C08", {"property": "C08", "kind": "correspondence-broken",
                                            "correspondence": "Lean reference semantics (Scfg/Py/Micro.lean) vs CPython", "mismatching_paths": refmm})
@@ -269,6 +277,8 @@ def run(ctx):
                    "front-end CFG semantics (all decision sequences), CPython runs of both on every decision sequence up to depth 7, census",
            "cpython_paths": npaths, "refsem_vs_cpython_mismatches": refmm,
            "front_end_model_compared": sum(1 for r in recs if "fe_model_same" in r), "front_end_model_mismatches": len(femm),
+           "prune_theorem_hypotheses_hold": sum(1 for r in recs if r.get("prune_hyp") == "1"),
+           "prune_theorem_hypotheses_fail": len(hypbad),
            "lean_verdicts": dict(Counter(r.get("lean", "not-run") for r in recs)),
            "classified_by_bounded_fallback": sum(1 for r in recs if r.get("classification") == "bounded"),
            "failing_programs": sum(len(v) for v in by.values()),
